@@ -37,6 +37,25 @@ pub mod signum;
 mod wnaf;
 pub use self::wnaf::Wnaf;
 
+#[cfg(feature = "verif")]
+pub mod verif_probe;
+
+/// Verification hook: the crate-private wNAF primitives, so that every window
+/// size can be driven directly.
+#[cfg(feature = "verif")]
+pub mod verif_wnaf {
+    use {CurveProjective, PrimeFieldRepr};
+    pub fn wnaf_table<G: CurveProjective>(table: &mut Vec<G>, base: G, window: usize) {
+        ::wnaf::wnaf_table(table, base, window)
+    }
+    pub fn wnaf_form<S: PrimeFieldRepr>(wnaf: &mut Vec<i64>, c: S, window: usize) {
+        ::wnaf::wnaf_form(wnaf, c, window)
+    }
+    pub fn wnaf_exp<G: CurveProjective>(table: &[G], wnaf: &[i64]) -> G {
+        ::wnaf::wnaf_exp(table, wnaf)
+    }
+}
+
 use ff::{Field, PrimeField, PrimeFieldDecodingError, PrimeFieldRepr, ScalarEngine, SqrtField};
 use std::error::Error;
 use std::fmt;
